@@ -78,16 +78,19 @@ def generate(prop, rng, run, tier):
                 # chart-level bypass: reorder / pop / setdefault on a chart's mapping
                 ck = rng.choice(["NOTES", "NOTES2", "STEPSTYPE", "CREDIT", "DESCRIPTION", "METER",
                                  "CHARTNAME", "RADARVALUES", "DIFFICULTY", "X"])
-                kind = rng.choice(["move", "move", "dict_pop", "dict_setdefault"])
+                kind = rng.choice(["move", "move", "dict_pop", "dict_setdefault", "rename_key"])
                 if kind in ("dict_pop", "dict_setdefault") and ck in ("NOTES", "NOTES2"):
                     ck = "CREDIT"
                 op = {"op": kind, "i": rng.randint(0, nch - 1), "key": ck}
+                if kind == "rename_key":
+                    # note data moved to the other spelling of its key, same object
+                    op["key"], op["new"] = rng.choice([("NOTES", "NOTES2"), ("NOTES2", "NOTES")])
                 if kind == "move":
                     op["last"] = rng.random() < 0.5
                 if kind == "dict_setdefault":
                     op["value"] = gen.gen_value(rng, profile)
             else:
-                kind = rng.choice(["move", "dict_pop", "dict_popitem", "dict_setdefault",
+                kind = rng.choice(["move", "dict_pop", "dict_popitem", "dict_setdefault", "rename_key",
                                    "charts_swap", "charts_reverse", "chart"])
                 op = gen.gen_edit_op(rng, fmt, profile, nch, "roundtrip", {kind: 1000})
                 if op["op"] == "move" and model_keys_hint:
@@ -135,7 +138,12 @@ def _generate_c18(rng):
         pre.append({"op": "charts_append", "chart": rng.choice([
             {"from": "blank"},
             {"from": "fields", "fields": ["dance-single", "d", "Hard", "9", "0,0", "0000"]},
-            {"from": "fields", "fields": ["a", "b", "c", "d", "e", "f"], "extra": ["x", "y"]}])})
+            {"from": "fields", "fields": ["a", "b", "c", "d", "e", "f"], "extra": ["x", "y"]},
+            # an empty SMChart() whose six fields are assigned in another order
+            {"from": "ctor", "fields": ["a", "b", "c", "d", "e", "f"], "via": rng.choice(["attr", "key"]),
+             "order": rng.sample(range(6), 6)},
+            {"from": "ctor", "fields": ["dance-single", "", "Easy", "1", "0,0", "0000"], "via": "attr",
+             "order": rng.sample(range(6), 6), "extra": ["x"]}])})
     elif obj == "sscchart":
         pre.append({"op": "charts_append", "chart": rng.choice([
             {"from": "blank"}, {"from": "items", "items": []},
@@ -173,7 +181,7 @@ def _generate_c18(rng):
         else:
             opk = gen.wchoice(rng, [("get_attr", 2), ("set_attr", 3), ("del_attr", 2), ("get_key", 2),
                                     ("set_key", 3), ("del_key", 2), ("contains", 1), ("iter", 1),
-                                    ("keys", 0.5), ("move", 0.7)])
+                                    ("keys", 0.5), ("move", 0.7), ("rename_key", 0.6)])
         op = {"op": opk}
         if target is not None:
             op["i"] = target
@@ -193,6 +201,9 @@ def _generate_c18(rng):
             op["value"] = value
         if opk == "move":
             op["last"] = rng.random() < 0.5
+        if opk == "rename_key":
+            _, std_, alias_ = focus
+            op["key"], op["new"] = rng.choice([(std_, alias_), (alias_, std_), (std_, "X"), ("X", alias_)])
         if opk == "set_extra":
             op["extra"] = rng.choice([None, [], ["e1"], ["e1", "e2:x"]])
         seq.append(op)
@@ -200,9 +211,91 @@ def _generate_c18(rng):
             "pre": len(pre)}
 
 
+def _c18_core():
+    """A fixed core of short histories that is executed whatever the seed (as C06 has its
+    fixed configuration matrix): for every aliased property of every object kind, from every
+    presence state of the standard key and its alias, every pair of operations of the
+    property's vocabulary, and every triple whose first operation is a read (a read that
+    leaves hidden state behind shows two steps later).  The seeded histories remain the
+    deciding step; this only guarantees that no batch misses the short ones."""
+    out = []
+
+    def vocab(attr, std, alias, chart):
+        v = [{"op": "get_attr", "attr": attr}, {"op": "set_attr", "attr": attr, "value": "v1"},
+             {"op": "set_attr", "attr": attr, "value": ""}, {"op": "del_attr", "attr": attr},
+             {"op": "iter"}]
+        for k in (std, alias, "X"):
+            v += [{"op": "get_key", "key": k}, {"op": "set_key", "key": k, "value": "v2"},
+                  {"op": "set_key", "key": k, "value": ""}, {"op": "del_key", "key": k},
+                  {"op": "contains", "key": k}]
+        if chart:
+            v = [dict(o, i=0) for o in v]
+        return v
+
+    combos = [("sm", "sm", "stops", "STOPS", "FREEZES"), ("sm", "sm", "bgchanges", "BGCHANGES", "ANIMATIONS"),
+              ("ssc", "ssc", "bgchanges", "BGCHANGES", "ANIMATIONS"), ("ssc", "ssc", "stops", "STOPS", "FREEZES"),
+              ("sscchart", "ssc", "notes", "NOTES", "NOTES2")]
+    for obj, fmt, attr, std, alias in combos:
+        chart = obj == "sscchart"
+        states = [[], [[std, "s"]], [[std, ""]], [[alias, "a"]], [[alias, ""]],
+                  [[std, "s"], [alias, "a"]], [[alias, "a"], [std, "s"]], [[std, ""], [alias, "a"]]]
+        ops_ = vocab(attr, std, alias, chart)
+        reads = [o for o in ops_ if o["op"] in ("get_attr", "iter") or
+                 (o["op"] == "contains" and o["key"] == std)]
+        for st in states:
+            if chart:
+                pre = [{"op": "charts_append", "chart": {"from": "items", "items": [["STEPSTYPE", "x"]] + st}}]
+            else:
+                pre = [{"op": "set_key", "key": k, "value": v} for k, v in st]
+            cfg = {"fmt": fmt, "start": "empty", "obj": obj, "profile": "plain"}
+            for a in ops_:
+                for b in ops_:
+                    out.append({"workload": "edit", "property": "C18", "fixed": "core", "config": cfg,
+                                "ops": pre + [a, b], "pre": len(pre)})
+            for r in reads:
+                for a in ops_:
+                    if a["op"] in ("get_attr", "get_key", "contains", "iter"):
+                        continue
+                    for b in ops_:
+                        out.append({"workload": "edit", "property": "C18", "fixed": "core", "config": cfg,
+                                    "ops": pre + [r, a, b], "pre": len(pre)})
+    # SM chart: its six fields, by attribute, by upper-case key, by other spellings, and the
+    # refused operations; from a parsed chart and from an empty SMChart() filled in another order
+    for std in ("NOTES", "STEPSTYPE"):
+        attr = std.lower()
+        v = [{"op": "get_attr", "attr": attr}, {"op": "set_attr", "attr": attr, "value": "v1"},
+             {"op": "set_attr", "attr": attr, "value": ""}, {"op": "del_attr", "attr": attr},
+             {"op": "iter"}, {"op": "keys"}, {"op": "popitem"}, {"op": "set_extra", "extra": ["e1"]},
+             {"op": "set_extra", "extra": None}]
+        for k in (std, std.lower(), "X"):
+            v += [{"op": "get_key", "key": k}, {"op": "set_key", "key": k, "value": "v2"},
+                  {"op": "set_key", "key": k, "value": ""}, {"op": "del_key", "key": k},
+                  {"op": "contains", "key": k}, {"op": "update", "key": k, "value": "v3"},
+                  {"op": "pop", "key": k}]
+        v = [dict(o, i=0) for o in v]
+        for spec in ({"from": "fields", "fields": ["a", "b", "c", "d", "e", "f"], "extra": ["x"]},
+                     {"from": "ctor", "fields": ["a", "b", "c", "d", "e", "f"], "via": "attr",
+                      "order": [5, 3, 0, 4, 1, 2]}):
+            pre = [{"op": "charts_append", "chart": spec}]
+            cfg = {"fmt": "sm", "start": "empty", "obj": "smchart", "profile": "plain"}
+            for a in v:
+                for b in v:
+                    out.append({"workload": "edit", "property": "C18", "fixed": "core", "config": cfg,
+                                "ops": pre + [a, b], "pre": len(pre)})
+    return out
+
+
+_C18_CORE = None
+
+
 def fixed_scenarios(prop):
     """Fixed probes: the known-finding inputs (run every time so that the
     KNOWN-FINDING lines do not depend on the seed), and tiny sanity sessions."""
+    global _C18_CORE
+    if prop == "C18":
+        if _C18_CORE is None:
+            _C18_CORE = _c18_core()
+        return _C18_CORE
     out = []
     if prop in ("C01", "C02"):
         fmt = "sm" if prop == "C01" else "ssc"
@@ -577,7 +670,10 @@ def check_c18_state(sc, res, sf, model, idx, op, lib, last_touched):
                 return False
         if isinstance(m, RefSMChart):
             ks = list(real)
-            if ks != list(SM_FIELDS):
+            # (the order of the mapping's keys is the order of first assignment - only a chart
+            # filled through the empty constructor has another one; the documented field order
+            # is what the serialisation clause below checks)
+            if sorted(ks) != sorted(SM_FIELDS):
                 res.violate(P, "smchart-keys-not-fixed", at=idx, keys=ks, op=op)
                 return False
     # equality sees exactly the mapping's content
